@@ -21,7 +21,7 @@ func init() {
 			"tight-limit runs let only one account at a time own future-queue entries (the node promotes accounts in Go map order; who gets the last free slot is not reproducible otherwise): enforced when a client's final phase is released — a restriction of the explored space, not of the oracle",
 			"only the native coin is moved (plain transfers and confidential transactions); token, contract and multi-signature transactions are not generated",
 		},
-		QuickRuns: 5000, QuickBudget: 55 * time.Second, ThoroughRuns: 40000, ThoroughBudget: 15 * time.Minute,
+		QuickRuns: 5000, QuickBudget: 50 * time.Second, ThoroughRuns: 40000, ThoroughBudget: 15 * time.Minute,
 		RunsPerProcess: 60, RunTimeout: 90 * time.Second,
 		Run: func(c *kernel.Ctx) { Run(c, Options{Prop: "C15", Liveness: true}) },
 	})
